@@ -139,11 +139,12 @@ fn main() {
                 std::process::exit(2)
             });
             rt::sched();
-            let (findings, ex) = runner::replay(def, &vr, &known);
+            let (findings, ex, known_hits) = runner::replay(def, &vr, &known);
             let same_trace = runner::rle(&ex.outcome.trace) == vr.trace_rle;
             let out = serde_json::json!({
                 "property": prop,
                 "findings": findings,
+                "known_findings_matched": known_hits,
                 "verdict": format!("{:?}", ex.outcome.verdict),
                 "same_trace_as_recorded": same_trace,
                 "calls": ex.calls.len(),
